@@ -8,11 +8,11 @@ axis order and ravel order the code uses) and `HcipyVerif.Layer` (the two layers
 the random generator as an explicit value), the models tied to hcipy by harness/props/c15.py.
 
 * replay: `finite_reset_is_fresh`, `infinite_reset_is_fresh`, `replay_after_reset`, `replay_after_reset_infinite`,
-  `independent_only_on_request`, `independent_draws_fresh_numbers`; `…Old` counterexample for D17;
+  `independent_only_on_request`, `independent_draws_fresh_numbers`; `reset_old_counterexample` for D17;
 * spectral shift: `phase_axis_order`, `shift_theorem`, `shift_theorem_multiscale`, `whole_pixel_exact`,
   `finite_layer_translates`; counterexample `shift_axes_swapped_counterexample` (2×3 grid) for D16;
 * extrusion: `extrude_left/right/top/bottom`, `extrude_moves`, `extrudeN_moves`, `evolve_translates`,
-  `direction_agrees_with_velocity`; `…Old` counterexample for D18;
+  `screen_shape`, `direction_agrees_with_velocity`; `direction_old_counterexample` for D18;
 * scaling: `phase_inverse_wavelength`, `phase_sqrt_strength`.
 
 Hypothesis used by the spectral theorems: `χ` is an additive character (`χ (a+b) = χ a * χ b`) —
@@ -282,6 +282,26 @@ theorem direction_old_counterexample :
     let L := InfL.new 3 2 (1/4, 1/4) (1/4, 0) 7
     (L.evolveWith sideXOld sideYOld 1).screen[0 * 3 + 0]? = L.screen[0 * 3 + 1]? ∧
     (L.evolveWith sideXOld sideYOld 1).screen[0 * 3 + 1]? ≠ L.screen[0 * 3 + 0]? := by decide +kernel
+
+
+/-- The shape hypothesis of `evolve_translates` holds for every layer that exists: every reset (hence
+construction) produces an `ny × nx` screen, and every evolution keeps the shape. -/
+theorem screen_shape (L : InfL) (b : Bool) (t : Rat) :
+    (L.reset b).screen.length = (L.reset b).ny * (L.reset b).nx ∧
+    (L.screen.length = L.ny * L.nx → 0 < L.nx → 0 < L.ny →
+      (L.evolveWith sideX sideY t).screen.length = L.ny * L.nx) := by
+  constructor
+  · cases b <;> simp [InfL.reset, InfL.pickRng, InfL.initScreen, Nat.mul_comm]
+  · intro hs hW hH
+    simp only [InfL.evolveWith]
+    generalize pixel (L.center.1 + L.vel.1 * (t - L.t)) L.delta.1 - pixel L.center.1 L.delta.1 = dx
+    generalize pixel (L.center.2 + L.vel.2 * (t - L.t)) L.delta.2 - pixel L.center.2 L.delta.2 = dy
+    have h1 := extrudeN_moves (sideX dx) dx.natAbs L hs hW hH
+    have p1 := InfL.extrudeN_params (sideX dx) dx.natAbs L
+    have h2 := extrudeN_moves (sideY dy) dy.natAbs (InfL.extrudeN (sideX dx) dx.natAbs L)
+      (by rw [p1.1, p1.2.1]; exact h1.1) (by rw [p1.1]; exact hW) (by rw [p1.2.1]; exact hH)
+    rw [p1.1, p1.2.1] at h2
+    exact h2.1
 
 
 /-! ## Replay after reset -/
